@@ -287,6 +287,11 @@ func (s *Sim) onEvent(oi int, h ecs.Entity, ptrs []unsafe.Pointer) {
 	expLocked := before || t.expLock || t.callerLocked
 	if got := s.W.IsLocked(); got != expLocked {
 		s.violate("C09", "cb.lock", t.kind+"/"+EvName(o.Spec.Ev), false, "IsLocked=%v inside %s callback of %s, expected %v", got, EvName(o.Spec.Ev), t.kind, expLocked)
+		if expLocked {
+			// C07: during every removal and batch callback structural operations must panic
+			s.C.Checks["lock.blocks"]++
+			s.violate("C07", "lock.blocks", "callback_unlocked/"+t.kind+"/"+EvName(o.Spec.Ev), false, "the world is not locked inside the %s callback of %s: structural operations would succeed", EvName(o.Spec.Ev), t.kind)
+		}
 	}
 	// cb.timing: the entity's components as documented for this instant.
 	if msg := s.compareEntity(ent, h); msg != "" {
